@@ -237,14 +237,26 @@ root("spaceref",
 root("twobases",
      {"spaces": {"B1": {"cells": {"rate": L + "10 * x"}},
                  "B2": {"cells": {"rate": L + "20 * x"}},
-                 "Sub": {"bases": ["B1", "B2"], "cells": {"total": L + "rate(x) + 1"}},
+                 "Sub": {"bases": ["B1", "B2"], "formula": "lambda i: None", "cells": {"total": L + "rate(x) + 1"}},
                  "O": {"refs": {"s": obj("Sub")}, "cells": {"view": L + "s.rate(x) + 2"}}}},
-     [q("Sub", "total", 1), q("O", "view", 1), q("Sub", "rate", 1)],
+     [q("Sub", "total", 1), q("O", "view", 1), q("Sub", "rate", 1), q("Sub[1]", "total", 1)],
      [del_cells("B1", "rate"), remove_bases("Sub", "B1"), add_bases("Sub", "B1"),
       new_cells("B1", "rate", L + "30 * x"), set_formula("B1", "rate", L + "40 * x"),
       set_formula("B2", "rate", L + "50 * x"), set_formula("Sub", "rate", L + "60 * x"), del_cells("Sub", "rate"),
       set_input("B1", "rate", [1], 7), rename_cells("B1", "rate", "rate2"), {"op": "sort_cells", "sp": "Sub"}],
-     [q("Sub", "total", 1), q("O", "view", 1)])
+     [q("Sub", "total", 1), q("O", "view", 1), q("Sub[1]", "total", 1)])
+
+# 15. a *reference* derived from the first of two bases defining it, read by name in the sub, by attribute path from
+# another space, and in an ItemSpace of the sub
+root("twobasesref",
+     {"spaces": {"B1": {"refs": {"k": 1}},
+                 "B2": {"refs": {"k": 2}},
+                 "Sub": {"bases": ["B1", "B2"], "formula": "lambda i: None", "cells": {"byname": L + "k + x"}},
+                 "O": {"refs": {"s": obj("Sub")}, "cells": {"bypath": L + "s.k + x + 100"}}}},
+     [q("Sub", "byname", 1), q("O", "bypath", 1), q("Sub[1]", "byname", 1)],
+     [del_ref("B1", "k"), remove_bases("Sub", "B1"), add_bases("Sub", "B1"), set_ref("B1", "k", 5),
+      set_ref("B2", "k", 6), set_ref("Sub", "k", 7), del_ref("Sub", "k"), set_ref("", "k", 9)],
+     [q("Sub", "byname", 1), q("O", "bypath", 1), q("Sub[1]", "byname", 1)])
 
 # 13. a chain through two uncached levels to an attribute-path / by-name reference, caller in another space
 root("uncachain",
